@@ -68,6 +68,7 @@ type File struct {
 	s    *Session // non-nil: operations on this file are logged / gated
 	rel  string
 	pos  int64
+	app  bool // opened with O_APPEND: every write goes to the end of the file, whatever Seek said
 }
 
 func exists(p string) bool { _, err := os.Lstat(p); return err == nil }
@@ -116,12 +117,7 @@ func OpenFile(name string, flag int, perm FileMode) (*File, error) {
 	if err != nil {
 		return nil, err
 	}
-	fl := &File{f: f, path: name, s: s, rel: rel}
-	if flag&O_APPEND != 0 {
-		if st, e := f.Stat(); e == nil {
-			fl.pos = st.Size()
-		}
-	}
+	fl := &File{f: f, path: name, s: s, rel: rel, app: flag&O_APPEND != 0}
 	return fl, nil
 }
 
@@ -230,7 +226,15 @@ func (f *File) Write(b []byte) (int, error) {
 	}
 	var n int
 	var err error
-	f.s.do(&Op{Kind: "write", Path: f.rel, Off: f.pos, Data: append([]byte(nil), b...)}, func() bool {
+	op := &Op{Kind: "write", Path: f.rel, Off: f.pos, Data: append([]byte(nil), b...)}
+	f.s.do(op, func() bool {
+		if f.app {
+			// the kernel ignores the file position of an O_APPEND descriptor: log where the bytes go
+			if st, e := f.f.Stat(); e == nil {
+				op.Off = st.Size()
+				f.pos = st.Size()
+			}
+		}
 		n, err = f.f.Write(b)
 		return err == nil && n == len(b)
 	})
